@@ -8,6 +8,7 @@ import (
 	"net"
 	"net/http"
 	"net/http/httptest"
+	"strconv"
 	"strings"
 	"sync"
 	"sync/atomic"
@@ -416,7 +417,7 @@ func (s *Sys) HTTP(method, path string, body []byte) (resp HTTPResp) {
 		rd = bytes.NewReader(body)
 	}
 	req := httptest.NewRequest(method, "http://verif.test"+path, rd)
-	rec := httptest.NewRecorder()
+	rec := newFramedRecorder()
 	func() {
 		defer func() {
 			if r := recover(); r != nil {
@@ -428,7 +429,60 @@ func (s *Sys) HTTP(method, path string, body []byte) (resp HTTPResp) {
 	resp.Status = rec.Code
 	resp.Body = rec.Body.Bytes()
 	resp.Header = rec.Header()
+	if resp.Panic == nil && rec.short() {
+		resp.Panic = fmt.Sprintf("the handler declared Content-Length %d and wrote %d bytes (net/http would break the connection)", rec.declared, rec.Body.Len())
+	}
 	return resp
+}
+
+// framedRecorder is httptest's recorder with net/http's response framing: once a Content-Length
+// has been declared (headers are frozen at the first WriteHeader/Write) the body cannot grow past
+// it - the excess is refused with http.ErrContentLength and never reaches the client.
+type framedRecorder struct {
+	*httptest.ResponseRecorder
+	frozen   bool
+	declared int64 // -1: none
+}
+
+func newFramedRecorder() *framedRecorder {
+	return &framedRecorder{ResponseRecorder: httptest.NewRecorder(), declared: -1}
+}
+
+func (r *framedRecorder) freeze() {
+	if r.frozen {
+		return
+	}
+	r.frozen = true
+	if cl := r.Header().Get("Content-Length"); cl != "" {
+		if n, err := strconv.ParseInt(cl, 10, 64); err == nil && n >= 0 {
+			r.declared = n
+		}
+	}
+}
+
+func (r *framedRecorder) WriteHeader(code int) {
+	r.freeze()
+	r.ResponseRecorder.WriteHeader(code)
+}
+
+func (r *framedRecorder) Write(b []byte) (int, error) {
+	r.freeze()
+	if r.declared >= 0 {
+		room := r.declared - int64(r.Body.Len())
+		if int64(len(b)) > room {
+			if room > 0 {
+				_, _ = r.ResponseRecorder.Write(b[:room])
+			}
+			return int(max(room, 0)), http.ErrContentLength
+		}
+	}
+	return r.ResponseRecorder.Write(b)
+}
+
+func (r *framedRecorder) WriteString(str string) (int, error) { return r.Write([]byte(str)) }
+
+func (r *framedRecorder) short() bool {
+	return r.declared >= 0 && int64(r.Body.Len()) < r.declared && r.Code != http.StatusNotModified && r.Code != http.StatusNoContent
 }
 
 // abortWriter is a client that goes away: the first failAfter bytes of the response are taken,
@@ -480,7 +534,7 @@ func (s *Sys) HTTPAbort(method, path string, failAfter int) (resp HTTPResp) {
 
 // RoundTrip lets the bundled Go client talk to the in-process router.
 func (s *Sys) RoundTrip(req *http.Request) (*http.Response, error) {
-	rec := httptest.NewRecorder()
+	rec := newFramedRecorder()
 	var pv any
 	func() {
 		defer func() { pv = recover() }()
@@ -494,6 +548,9 @@ func (s *Sys) RoundTrip(req *http.Request) (*http.Response, error) {
 	}()
 	if pv != nil {
 		return nil, fmt.Errorf("handler panic (net/http would drop the connection): %v", pv)
+	}
+	if rec.short() {
+		return nil, fmt.Errorf("unexpected EOF: the handler declared Content-Length %d and wrote %d bytes", rec.declared, rec.Body.Len())
 	}
 	res := rec.Result()
 	res.Request = req
